@@ -20,12 +20,13 @@ git checkout -q -- . && cmake --build _build -j8 > /tmp/mut/$P.build.log 2>&1
 ( cd $SRC && timeout 120 bash run.sh $WT/_build $WT > /tmp/mut/$P.demo_clean.log 2>&1 ); DC=$?
 echo "scratch: tests with mutant: $TESTS ; demo exit on mutant: $DM ; demo exit on clean: $DC"
 fi
-cd /repo && git apply --check $SRC/patch.diff 2>/dev/null || { echo "patch does not apply to /repo HEAD"; APPLY=no; }
+RP=${SEED_REPO:-/repo}; VF=${SEED_VERIF:-/verif}      # SEED_REPO: a worktree of /repo at the same HEAD, SEED_VERIF: a copy of /verif (used while another run owns /repo and /verif)
+cd $RP && git apply --check $SRC/patch.diff 2>/dev/null || { echo "patch does not apply to $RP HEAD"; APPLY=no; }
 RES="not-run"; RC=-1
 if [ "$APPLY" != "no" ]; then
   git apply $SRC/patch.diff
-  cd /verif && ./check $P "$@" > /tmp/mut/$P.$V.check.log 2>&1; RC=$?
-  git -C /repo checkout -q -- .
+  cd $VF && VERIF_REPO=$RP ./check $P "$@" > /tmp/mut/$P.$V.check.log 2>&1; RC=$?
+  git -C $RP checkout -q -- .
   RES=$(grep -c "^VIOLATION" /tmp/mut/$P.$V.check.log)
   echo "check exit $RC, VIOLATION lines: $RES"; grep "^VIOLATION\|^UNDECIDED\|^property" /tmp/mut/$P.$V.check.log | cut -c1-260 | head -8
 fi
@@ -33,6 +34,6 @@ python3 - <<PY
 import json
 json.dump({"property": "$P", "variant": "$V", "tests_with_mutant": "$TESTS".strip(), "demo_exit_mutant": $DM, "demo_exit_clean": $DC,
            "check_exit": $RC, "violation_lines": "$RES", "confirmed_by_me": ("100% tests passed" in "$TESTS") and $DM != 0 and $DC == 0,
-           "what_i_ran": "tool/seedtest.sh $P $V: scratch worktree /tmp/mut/$P (patch, cmake --build, ctest -j8, run.sh on mutated and clean build); then git -C /repo apply, ./check $P, git checkout",
+           "what_i_ran": "tool/seedtest.sh $P $V: scratch worktree /tmp/mut/$P (patch, cmake --build, ctest -j8, run.sh on mutated and clean build); then git -C ${SEED_REPO:-/repo} apply, ./check $P (in ${SEED_VERIF:-/verif}), git checkout",
            "needs_to_manifest": open("$SRC/notes.md").read()[:1500]}, open("$OUT/meta.json", "w"), indent=1)
 PY
